@@ -400,6 +400,7 @@ def generate_stats(repo: Path) -> str:
     import translate_skel as S
     gen = S.SkelTr(repo, S.STATS_SPEC).generate(["log_tick_time_statistics"])
     body = (TIES_DIR / "stats.lean").read_text().replace("--%GEN%\n", gen)
+    body = body.replace("--%GEN_TICK%\n", S.SkelTr(repo, S.INFERENCE_TICK_SPEC).generate(["on_tick"]))
     return ("import Pamiq.Model.Tick\nset_option linter.unusedVariables false\nset_option linter.unusedSimpArgs false\n"
             "namespace Pamiq.GenStats\nopen Pamiq\n\n" + S.PRELUDE + "\n" + body + "\nend Pamiq.GenStats\n")
 
@@ -462,7 +463,7 @@ def check_class(res: SuiteResult, repo: Path, which: str = "TimeController") -> 
                              "ControlThread.on_tick": (generate_control_tick, "GenCT", "Pamiq.Tick", 5),
                              "ControlThread.pause_save": (generate_control_proto, "GenCTP", "Pamiq.Proto (ProtoCtl)", 7),
                              "ControllerCommandHandler": (generate_handler, "GenH", "Pamiq.Proto (ProtoBg)", 2),
-                             "InferenceThread.statistics": (generate_stats, "GenStats", "Pamiq.Bookkeep (guarded)", 1),
+                             "InferenceThread.statistics": (generate_stats, "GenStats", "Pamiq.Bookkeep (guarded)", 2),
                              "TrainingThread.on_tick": (generate_training_tick, "GenTT", "Pamiq.Trainer (round robin)", 1)}[which]
     try:
         text = gen(repo)
@@ -472,7 +473,7 @@ def check_class(res: SuiteResult, repo: Path, which: str = "TimeController") -> 
         res.extra.setdefault("unavailable", []).append(f"{which}: {e}")
         return
     names = re.findall(r"^theorem (\w+)", text, re.M)
-    qnames = qualified_theorems(text) if which.startswith("Control") else [f"Pamiq.{ns}.{n}" for n in names]
+    qnames = qualified_theorems(text) if which.startswith(("Control", "Inference")) else [f"Pamiq.{ns}.{n}" for n in names]
     with tempfile.TemporaryDirectory(prefix="pamiq-verif.") as d:
         f = Path(d) / "GenTC.lean"
         f.write_text(text + "\n" + "\n".join(f"#print axioms {n}" for n in qnames) + "\n")
